@@ -66,6 +66,8 @@ class Env:
             if name in e.vars:
                 return e.vars[name]
             e = e.parent
+        if name in GLOBAL_OVERRIDES:
+            return GLOBAL_OVERRIDES[name]
         if name in self.globs:
             return self.globs[name]
         if hasattr(builtins, name):
@@ -74,6 +76,9 @@ class Env:
 
     def set(self, name, v):
         self.vars[name] = v
+
+
+GLOBAL_OVERRIDES: dict = {}
 
 
 class Closure:
@@ -231,6 +236,7 @@ class Interp:
         self.max_steps = max_steps
         self.depth = 0
         self.inline_only = set()  # function objects that must be inlined even if they have a contract
+        self.effects = None  # effect-trace mode (C14/C15): an pyvc.effects.EffectModel
 
     # ---------------------------------------------------------------- objects
     def resolve(self, v):
@@ -385,6 +391,8 @@ class Interp:
         if isinstance(v, SV):
             return models.sv_isinstance(v, classes)
         if isinstance(v, Opaque):
+            if self.effects is not None:
+                return self.ctx.decide(2, f"isinstance({v.origin})") == 0
             raise Unsupported(f"isinstance on opaque value {v.origin}")
         return isinstance(v, classes)
 
@@ -436,6 +444,11 @@ class Interp:
         if isinstance(a, str) and isinstance(op, ast.Mod):
             return models.str_format_percent(self, a, b)
         if isinstance(a, Opaque) or isinstance(b, Opaque):
+            if self.effects is not None and isinstance(op, ast.Add):
+                from .effects import descr, mk_str
+
+                if getattr(a, "typ", None) == "str" or getattr(b, "typ", None) == "str" or isinstance(a, str) or isinstance(b, str):
+                    return mk_str(descr(a) + descr(b))
             self.ctx.notes.append("havoc binop on opaque")
             return Opaque(f"binop({a!r},{b!r})")
         raise Unsupported(f"binop {type(op).__name__} on {type(a).__name__}, {type(b).__name__}")
@@ -600,9 +613,15 @@ class Interp:
         if isinstance(fn, models.BuiltinModel):
             return fn.f(*args, **kwargs)
         if isinstance(fn, Opaque):
+            if self.effects is not None:
+                return self.effects.opaque_call(self, fn, args, kwargs)
             self.ctx.notes.append(f"havoc call of {fn.origin}")
             return Opaque(f"{fn.origin}()")
         reg = self.registry
+        if self.effects is not None:
+            r = self.effects.real_call(self, fn, args, kwargs)
+            if r is not NotImplemented:
+                return r
         # effects / externals declared by the contract set (C14/C15)
         if reg is not None:
             h = reg.lookup_effect(fn)
@@ -789,6 +808,10 @@ class Interp:
             env.lookup("__yield__").append(self.eval(st.value.value, env) if st.value.value else None)
             return
         if _is_logging_call(st.value):
+            if self.effects is not None:
+                # the call itself is a no-op, but evaluating its arguments may raise
+                for a in st.value.args:
+                    self.eval(a, env)
             return
         self.eval(st.value, env)
 
@@ -1078,6 +1101,8 @@ class Interp:
             return it.concrete_items(self)
         if isinstance(it, SV):
             raise Unsupported(f"iteration over symbolic {it.kind}")
+        if isinstance(it, Opaque) and self.effects is not None:
+            return self.effects.opaque_iterate(self, it)
         if isinstance(it, SObj | SLazy | Opaque):
             raise Unsupported(f"iteration over {it!r}")
         try:
@@ -1114,6 +1139,8 @@ class Interp:
         if isinstance(obj, models.SMap):
             return obj.getitem(self, idx)
         if isinstance(obj, Opaque):
+            if self.effects is not None:
+                return self.effects.opaque_getitem(self, obj, idx)
             return Opaque(f"{obj.origin}[...]")
         if isinstance(idx, slice) and is_symbolic([idx.start, idx.stop, idx.step]):
             return models.symbolic_slice(self, obj, idx)
